@@ -93,11 +93,12 @@ def st_mat_over_chain(draw, tier):
 
 
 @st.composite
-def st_roundtrip_over_pruned_chain(draw, tier):
+def st_roundtrip_over_pruned_chain(draw, tier, cfg=None):
     """program -> transfer to another engine -> chain with a doomed leaf there -> transfer back (+ one operation)."""
     from vf.core.gen import st_unary_node
     from vf.core.prog import engine_of, schema
 
+    cfg = cfg or globals()["cfg"]
     universe, leaves, prog = draw(st_program(cfg(tier)))
     cols = schema(prog, leaves)
     a = engine_of(prog, leaves)
